@@ -49,6 +49,9 @@ def attach(rec, cap):
 
 
 def rel(a, b):
+    """relative difference; inf (never 'within tolerance') when either side is NaN"""
+    if a != a or b != b:
+        return 0.0 if (a != a and b != b) else float("inf")
     return abs(a - b) / max(abs(a), abs(b), 1e-300)
 
 
